@@ -7,3 +7,4 @@ def build_all():
     lib.build_match('range', 'quick', 1)
     lib.build_coro()
     lib.build_c09('quick')
+    lib.build_conc()
